@@ -61,8 +61,23 @@ func VC03_Structural() {
 		Inline(vObj{v}).AddTo(r)
 		vrt.Assert("Inline", len(r.calls) == 1 && r.calls[0].method == "AddInt64" && r.calls[0].key == "n" && r.calls[0].val.(int64) == v)
 	case 3:
-		Dict("k", Int64("a", v), String("b", "x")).AddTo(r)
+		// a caller-owned slice with no-op fields in it (Skip, Error(nil)); used twice, directly and through Any
+		fs := []Field{Skip(), Int64("a", v), Error(nil), String("b", "x")}
+		keep := append([]Field(nil), fs...)
+		if vrt.Choice("dict-via", 2) == 0 {
+			Dict("k", fs...).AddTo(r)
+		} else {
+			Any("k", fs).AddTo(r)
+		}
 		vrt.Assert("Dict", len(r.calls) == 1 && r.calls[0].method == "AddObject" && len(r.calls[0].fields) == 2 && r.calls[0].fields[0].key == "a" && r.calls[0].fields[0].val.(int64) == v && r.calls[0].fields[1].val.(string) == "x")
+		same := len(fs) == len(keep)
+		for i := range keep {
+			same = same && fs[i].Equals(keep[i])
+		}
+		vrt.Assert("Dict:callers-slice-untouched", same)
+		r2 := &vRecEnc{}
+		Dict("k", fs...).AddTo(r2)
+		vrt.Assert("Dict:second-use-delivers-the-same", vSameCalls(r.calls, r2.calls))
 	case 4:
 		Namespace("k").AddTo(r)
 		_, ok := r.single("OpenNamespace", "k")
